@@ -143,6 +143,17 @@ pub(crate) mod rice;
 pub mod sigen;
 pub mod source;
 
+// Verification hooks (additive; compiled only under `--cfg flacenc_verif`).
+#[cfg(all(flacenc_verif, flacenc_verif_loom, feature = "par"))]
+#[doc(hidden)]
+pub mod verif_sync;
+#[cfg(flacenc_verif)]
+#[doc(hidden)]
+pub mod verif_export {
+    pub use crate::rice::find_partitioned_rice_parameter;
+    pub use crate::rice::PrcParameter;
+}
+
 #[cfg(test)]
 pub mod test_helper;
 
